@@ -280,4 +280,3 @@ func Same(a, b []Ev) bool {
 	}
 	return true
 }
-
